@@ -138,7 +138,7 @@ type EnvOpt struct {
 }
 
 var envKindAll = []string{"deposit", "deposit", "deposit", "reescrow", "reescrow", "ftf_pause", "ftf_unpause", "blacklist", "unblacklist", "burn_limit",
-	"cctp_pause_burn", "cctp_unpause_burn", "cctp_pause_msgs", "cctp_unpause_msgs", "hyp_unenroll", "hyp_enroll", "next_block", "next_block"}
+	"cctp_pause_burn", "cctp_unpause_burn", "cctp_pause_msgs", "cctp_unpause_msgs", "hyp_unenroll", "hyp_enroll", "next_block", "next_block", "send_disable", "send_enable"}
 
 func GenEnv(t *rapid.T, opt EnvOpt) Env {
 	kinds := opt.Kinds
@@ -172,6 +172,8 @@ func GenEnv(t *rapid.T, opt EnvOpt) Env {
 		if chance(t, "env/target/orbiter", 15) {
 			e.Target = world.OrbiterAddr.String()
 		}
+	case "send_disable", "send_enable":
+		e.Denom = pick(t, "env/send/denom", []string{world.Uusdc, world.Ufoo, world.Gamm})
 	case "next_block":
 		e.Amount = pick(t, "env/blocks", []string{"1", "1", "2", "1000", "4294967296"})
 	case "burn_limit":
